@@ -380,6 +380,7 @@ func c18Precedence(c *Ctx) {
 func c18NextHopPort(c *Ctx) {
 	w := c.w
 	rule := "next-hop-port"
+	ruleNumberParsing(c, rule, 1, "NewPreRouteItem")
 	f := c.fn(rule, "NewPreRouteItem")
 	if f == nil {
 		return
